@@ -67,6 +67,7 @@ SubSeqFrom(s, i) == IF i > Len(s) THEN <<>> ELSE SubSeq(s, i, Len(s))
    A definition is a record [k, n, s, t]:
      k = "P": server port = n            (sport:n)           metadata only
      k = "D": payload has marker of capture n (cdata:"MARKn;")  data feature
+     k = "C": some converter output of the stream is cached (cdata:"CONV:", which only converter output contains)  data feature
      k = "L": last packet not before capture n (ltime)       absolute-time feature
      k = "I": id in s                    (id:..)             id-only feature
      k = "M": id in s, for mark/ and generated/ tags
@@ -78,19 +79,26 @@ Def(k, n, s, t) == [k |-> k, n |-> n, s |-> s, t |-> t]
 Refs(d)      == IF d.k \in {"R", "N", "S"} THEN {d.t} ELSE {}
 FeatSub(d)   == d.k = "S"                     \* SubQueryFeatures # 0: invalidated completely (manager.go:605)
 FeatIdOnly(d) == d.k \in {"I", "M"}            \* MainFeatures &^ FeatureFilterID = 0   (manager.go:608)
-FeatData(d)   == d.k \in {"D", "L"}            \* data | absolute time                  (manager.go:614)
+FeatData(d)   == d.k \in {"D", "L", "C"}            \* data | absolute time                  (manager.go:614)
 FeatConvOK(d) == d.k \in {"P", "L", "I", "M"}  \* attachConverterToTag: no data filter, no tag reference
 IsMarkName(n) == \E i \in 1 .. Len(n) : SubSeq(n, 1, i) \in {"mark/", "generated/"}
 
 \* Does definition d accept stream (id, conn, ver) given the matches tdM of referenced tags?
-Eval(d, id, conn, ver, tdM, vis) ==
+\* cvs: the data versions of the cached converter outputs of the stream - a payload filter without a converter selector
+\* searches the raw payload and every cached converter output (the deterministic converter echoes the client payload)
+Eval(d, id, conn, ver, tdM, vis, cvs) ==
     CASE d.k = "P" -> Port[conn] = d.n
-      [] d.k = "D" -> d.n \in ver
+      [] d.k = "D" -> d.n \in ver \/ \E v \in cvs : d.n \in v
+      [] d.k = "C" -> cvs # {}                      \* only converter output contains "CONV:"
       [] d.k = "L" -> Max(ver) >= d.n
       [] d.k \in {"I", "M"} -> id \in Range(d.s)
       [] d.k = "R" -> id \in tdM[d.t]
       [] d.k = "N" -> id \notin tdM[d.t]
       [] d.k = "S" -> \E e \in vis : e[1] \in tdM[d.t] /\ Port[e[2]] = Port[conn]
+
+\* the data versions the cached converter outputs of a stream were computed from (the caches are global, not part of a
+\* job's snapshot: a tagging job reads them as they are while it computes)
+CachedVersions(id) == UNION {{x[2] : x \in {y \in cache[c] : y[1] = id}} : c \in DOMAIN cache}
 
 (* ---------- index files ---------- *)
 \* total on purpose: the predicates are also evaluated on states of a (possibly broken) implementation
@@ -304,7 +312,7 @@ ImportDone(pick) ==
 TagCompute ==
     LET j == jobs.tag
         vis == Visible(j.idx)
-        hit == {e[1] : e \in {x \in vis : x[1] \in j.U0 /\ Eval(j.def, x[1], x[2], x[3], j.td, vis)}}
+        hit == {e[1] : e \in {x \in vis : x[1] \in j.U0 /\ Eval(j.def, x[1], x[2], x[3], j.td, vis, CachedVersions(x[1]))}}
     IN
     /\ j.phase = "start"
     /\ jobs' = [jobs EXCEPT !.tag = [j EXCEPT !.phase = "gate", !.M1 = (j.M0 \ j.U0) \cup hit]]
@@ -379,7 +387,8 @@ ConvCompute ==
                     THEN cache[c] \cup {<<s, verOf(s)>> : s \in {x \in j.ids[c] : ~has(c, x) /\ exists(x)}}
                     ELSE cache[c]]
     /\ jobs' = [jobs EXCEPT !.conv = [j EXCEPT !.phase = "gate",
-                    !.ids = [c \in DOMAIN j.ids |-> {s \in j.ids[c] : ~has(c, s) /\ exists(s)}]]]
+                    \* (a converter whose executable was removed meanwhile fails and its streams are given up)
+                    !.ids = [c \in DOMAIN j.ids |-> IF c \in DOMAIN cache THEN {s \in j.ids[c] : ~has(c, s) /\ exists(s)} ELSE {}]]]
     /\ UNCHANGED <<settings, known, queue, nextID, allS, files, indexes, use, tags, flags, during, unmerge, views, toConv>>
 
 \* the closure posted by convertStreamJob (manager.go:1540-1572)
@@ -389,7 +398,7 @@ ConvDone(pick) ==
         \* streams invalidated while the job ran are invalidated again (the job may have cached their old data)
         ic == InvalidateConv(toConv, cache, during.inv)
         tg1 == Inherit([t \in DOMAIN tags |->
-                    IF tags[t].def.k = "D" THEN [tags[t] EXCEPT !.U = @ \cup conv] ELSE tags[t]], allS)
+                    IF tags[t].def.k \in {"D", "C"} THEN [tags[t] EXCEPT !.U = @ \cup conv] ELSE tags[t]], allS)
         du1 == [during EXCEPT !.upd = @ \cup conv, !.inv = {}]
         fl1 == [flags EXCEPT !.conv = FALSE]
         b0 == Bundle(tg1, fl1, [jobs EXCEPT !.conv = NoJob("conv")], use, du1, ic[1])
@@ -416,7 +425,7 @@ Reaches(tg, from, to) ==          \* does tag `from` (transitively) reference `t
     \/ to \in Refs(tg[from].def)
     \/ \E r \in Refs(tg[from].def) \cap DOMAIN tg : Reaches(tg, r, to)
 
-DefValid(d) == d.k \in {"P", "D", "L", "I", "M", "R", "N", "S"}     \* the query parses and is allowed in a tag
+DefValid(d) == d.k \in {"P", "D", "C", "L", "I", "M", "R", "N", "S"}     \* the query parses and is allowed in a tag
 AddTagOK(name, d) ==
     /\ DefValid(d)
     /\ name \notin DOMAIN tags
@@ -441,47 +450,64 @@ Detach(tg, tc, ca, name, cs) ==
     <<[c \in DOMAIN tc |-> IF c \in cs THEN tc[c] \ (tg[name].M \ OthersWith(tg, name, c)) ELSE tc[c]],
       [c \in DOMAIN ca |-> IF c \in cs /\ OthersWith(tg, name, c) = {} THEN {} ELSE ca[c]]>>
 
+\* The cached output of a converter was dropped (detached from its last tag, reset, executable removed): tags with payload
+\* filters may have matched that output and are evaluated again (manager.go invalidateTagsAfterConverterReset); a tagging
+\* job that is running has searched the old output: the streams go into the updated-during-tagging mask.
+DropTags(tg) == Inherit([t \in DOMAIN tg |-> IF tg[t].def.k \in {"D", "C"} THEN [tg[t] EXCEPT !.U = allS] ELSE tg[t]], allS)
+AfterDrop(b, idx, pick) == StartTag([b EXCEPT !.tags = DropTags(b.tags), !.during.upd = @ \cup allS], idx, pick)
+Dropped(tg, name, cs) == \E c \in cs : OthersWith(tg, name, c) = {}
+
 DelTagOK(name) == name \in DOMAIN tags /\ tags[name].refBy = {}
-DelTag(name) ==
+DelTag(name, pick) ==
     /\ DelTagOK(name)
-    /\ LET d == Detach(tags, toConv, cache, name, tags[name].convs) IN toConv' = d[1] /\ cache' = d[2]
-    /\ tags' = DelRefBy(Without(tags, name), name, Refs(tags[name].def))
-    /\ UNCHANGED <<settings, known, queue, nextID, allS, files, indexes, use, flags, during, unmerge, jobs, views>>
+    /\ LET d == Detach(tags, toConv, cache, name, tags[name].convs)
+           drop == Dropped(tags, name, tags[name].convs)
+           b0 == Bundle(tags, flags, jobs, use, during, d[1])
+           b1 == IF drop THEN AfterDrop(b0, indexes, pick) ELSE b0
+       IN /\ pick \in (IF drop THEN TagPicks(DropTags(tags), flags) ELSE {""})
+          /\ Install([b1 EXCEPT !.tags = DelRefBy(Without(b1.tags, name), name, Refs(tags[name].def))])
+          /\ cache' = d[2]
+    /\ UNCHANGED <<settings, known, queue, nextID, allS, files, indexes, unmerge, views>>
 
 \* UpdateTag(converter_set) (manager.go:1237-1262)
 SetConvOK(name, cs) ==
     /\ name \in DOMAIN tags
     /\ cs \subseteq DOMAIN toConv
     /\ (cs \ tags[name].convs # {}) => FeatConvOK(tags[name].def)
-SetConverters(name, cs) ==
+SetConverters(name, cs, pick) ==
     /\ SetConvOK(name, cs)
     /\ LET old == tags[name]
            d == Detach(tags, toConv, cache, name, old.convs \ cs)
+           drop == Dropped(tags, name, old.convs \ cs)
            tc1 == [c \in DOMAIN toConv |-> IF c \in cs \ old.convs THEN d[1][c] \cup old.M ELSE d[1][c]]
            tg1 == [tags EXCEPT ![name].convs = cs]
            b0 == Bundle(tg1, flags, jobs, use, during, tc1)
-           b1 == StartConv(b0, indexes)
-       IN Install(b1) /\ cache' = d[2]
+           b1 == IF drop THEN AfterDrop(b0, indexes, pick) ELSE b0
+           b2 == StartConv(b1, indexes)
+       IN /\ pick \in (IF drop THEN TagPicks(DropTags(tg1), flags) ELSE {""})
+          /\ Install(b2) /\ cache' = d[2]
     /\ UNCHANGED <<settings, known, queue, nextID, allS, files, indexes, unmerge, views>>
 
 \* ResetConverter / restartConverterProcess (manager.go:1832-1863)
-ConvReset(c) ==
+ConvReset(c, pick) ==
     /\ c \in DOMAIN toConv
     /\ cache' = [cache EXCEPT ![c] = {}]
     /\ LET tc1 == [toConv EXCEPT ![c] = @ \cup UNION {tags[t].M : t \in {u \in DOMAIN tags : c \in tags[u].convs}}]
-           b1 == StartConv(Bundle(tags, flags, jobs, use, during, tc1), indexes)
-       IN Install(b1)
+           b0 == AfterDrop(Bundle(tags, flags, jobs, use, during, tc1), indexes, pick)
+           b1 == StartConv(b0, indexes)
+       IN pick \in TagPicks(DropTags(tags), flags) /\ Install(b1)
     /\ UNCHANGED <<settings, known, queue, nextID, allS, files, indexes, unmerge, views>>
 
 \* The converter directory changes (fsnotify; manager.go removeConverter / addConverter): an executable disappears - the
 \* converter is detached from every tag, its cache is deleted, the state is saved - or a new one appears.
 ConvRemoveOK(c) == c \in DOMAIN toConv
-ConvRemove(c) ==
+ConvRemove(c, pick) ==
     /\ ConvRemoveOK(c)
-    /\ tags' = [t \in DOMAIN tags |-> [tags[t] EXCEPT !.convs = @ \ {c}]]
-    /\ toConv' = Without(toConv, c)
+    /\ LET tg1 == [t \in DOMAIN tags |-> [tags[t] EXCEPT !.convs = @ \ {c}]]
+           b0 == AfterDrop(Bundle(tg1, flags, jobs, use, during, Without(toConv, c)), indexes, pick)
+       IN pick \in TagPicks(DropTags(tg1), flags) /\ Install(b0)
     /\ cache' = Without(cache, c)
-    /\ UNCHANGED <<settings, known, queue, nextID, allS, files, indexes, use, flags, during, unmerge, jobs, views>>
+    /\ UNCHANGED <<settings, known, queue, nextID, allS, files, indexes, unmerge, views>>
 ConvAddOK(c) == c \notin DOMAIN toConv
 ConvAdd(c) ==
     /\ ConvAddOK(c)
@@ -665,7 +691,7 @@ Restart(ord, T, S, pick) ==
 RECURSIVE TruthOf(_, _, _)
 TruthOf(tg, vis, t) ==
     LET td == [r \in Refs(tg[t].def) |-> TruthOf(tg, vis, r)]
-    IN {e[1] : e \in {x \in vis : Eval(tg[t].def, x[1], x[2], x[3], td, vis)}}
+    IN {e[1] : e \in {x \in vis : Eval(tg[t].def, x[1], x[2], x[3], td, vis, CachedVersions(x[1]))}}
 
 \* C06: a decided answer is a correct answer
 NeverStaleFor(tg, vis, truth) ==
@@ -674,6 +700,10 @@ NeverStaleFor(tg, vis, truth) ==
 NeverStale ==
     LET vis == Visible(indexes) IN
     NeverStaleFor(tags, vis, [t \in DOMAIN tags |-> TruthOf(tags, vis, t)])
+
+\* while a converter job is in flight its output is already in the cache (written outside the service loop) but the tags
+\* with payload filters only learn about it when the job completes
+NeverStaleAtRest == ~flags.conv => NeverStale
 
 \* C11: the tag graph
 GraphWellFormed ==
